@@ -11,19 +11,19 @@ CLAIMED = {
    level="model_checking",
    text="TLC explores the complete (stored, memo) state space of the TypeContext model (all histories of any length over the closed key family) and checks that the write-back implementation refines the write-once reference lookup; every transition of the full-family model is executed on the real class and random real operation sequences are validated event by event against the reference by TLC.",
    ref="DESIGN.md section 4 C16",
-   note="Trusted: TLC, CommunityModules Json; the Python projection of dict keys/values to [b,f] records; bounded to the closed key family (3 bases x 14 forms in traces -- the flat forms plus NewType over alias / NewType / string alias and Final[NewType]; complete state space for 1 base x 10 and x 14 forms and 2-3 bases x 6 forms; one base is a class nested in a class)."),
+   note="Trusted: TLC, CommunityModules Json; the Python projection of dict keys/values to [b,f] records; bounded to the closed key family (3 class bases x 14 forms and a Literal base x 7 wrapper forms in traces -- the flat forms plus NewType over alias / NewType / string alias and Final[NewType]; complete state space for 1 base x 10 and x 14 forms and 2-3 bases x 6 forms; one base is a class nested in a class)."),
  "C08": dict(
    engine="Union",
    technique="TLA+ spec Union.tla (reference relation UnionRef + try/suppress loop), exhaustive TLC over member tuples/outcomes; real union routines vs independently built member routines, validated by TLC trace spec Union_Trace.tla",
    level="model_checking",
-   text="TLC checks that the implementation-shaped try/suppress loop refines UnionRef for every member tuple of length 2-4, every None placement and every assignment of member outcomes (and finds the counterexamples for the pre-fix rotation/suppress rules). Real union routines over ordered tuples of a 12-type pool are then run on an input pool in two orders and every call, with the outcomes of independently built member routines, is validated against UnionRef by TLC.",
+   text="TLC checks that the implementation-shaped try/suppress loop refines UnionRef for every member tuple of length 2-4, every None placement and every assignment of member outcomes (and finds the counterexamples for the pre-fix rotation/suppress rules). Real union routines over ordered tuples of a 12-type pool are then run on an input pool (incl. memoryviews made anew per call, so that only the members of one union call share an object) in two orders and every call, with the outcomes of independently built member routines, is validated against UnionRef by TLC.",
    ref="DESIGN.md section 4 C08",
    note="Trusted: TLC; member outcomes taken from member routines built in the same process; caches cleared per union annotation (cross-annotation cache effects belong to C12). Quick samples 3/4-tuples; thorough runs all 3-tuples."),
  "C18": dict(
    engine="Iter",
    technique="TLA+ spec Iter.tla (ItemsRef/ValuesRef vs peek/strategy implementation layer), exhaustive TLC over [kind, element shapes]; every TLC-emitted input materialised and run on serdes.iteritems/itervalues, validated by TLC trace spec Iter_Trace.tla",
    level="model_checking",
-   text="TLC enumerates every input description (22 class kinds incl. classes inheriting their first fields x sequences of 8 element shapes incl. the empty tuple, up to the bound; the empty input for every kind), checks the implementation-shaped model against the reference outside the one listed deviation, and emits each case; the harness materialises each one as a real object, runs the real functions twice (strategy memo cold and warm, both class orders) and TLC validates every observation against ItemsRef/ValuesRef.",
+   text="TLC enumerates every input description (25 class kinds incl. classes inheriting their first fields, slots-only hierarchies and partially evaluable hints x sequences of 8 element shapes incl. the empty tuple, up to the bound; the empty input for every kind), checks the implementation-shaped model against the reference outside the one listed deviation, and emits each case; the harness materialises each one as a real object, runs the real functions twice (strategy memo cold and warm, both class orders) and TLC validates every observation against ItemsRef/ValuesRef.",
    ref="DESIGN.md section 4 C18",
    note="Trusted: TLC; the tagging projection of yielded items; bounded to length 3 (quick) / 4 (thorough); 2-character-string elements unasserted."),
  "C10": dict(
@@ -32,19 +32,19 @@ CLAIMED = {
    level="model_checking",
    text="TLC checks for every legal signature of up to 4 (thorough: 5) parameters and every call shape that the transcribed binder selected by the matrix converts each argument with the unmarshaller of the parameter Python binds it to (and shows the pinned table violating this). Each emitted (signature, call) is then materialised as a real function / method / callable instance / class / factory closure (after a decoy product) / method bound through an instance after the same function was bound through the class / class with a pass-through __new__ (wrap only) whose parameters are annotated with distinct Enum classes, called through bind() and wrap(), and TLC validates every observation (landing parameter, converting class, TypeError on rejected calls, wrap metadata) against BindRef; BindRef's acceptance is audited against real Python calls.",
    ref="DESIGN.md section 4 C10",
-   note="Trusted: TLC; the Enum-per-parameter trick identifying the converter; quick replays <=3-parameter signatures (unannotated variants <=2), thorough adds all 4-parameter signatures."),
+   note="Trusted: TLC; the Enum-per-parameter trick identifying the converter; quick replays <=3-parameter signatures (unannotated variants <=2), quick adds >= 2 surplus positionals behind *args, thorough adds all 4-parameter signatures."),
  "C20": dict(
    engine="Future",
    technique="TLA+ spec Future.tla (Sem + five properties vs transcribed NodeTransformer), exhaustive TLC over expression ASTs; every emitted AST unparsed, run through the real future.transform twice, parsed back and validated by TLC trace spec Future_Trace.tla (plus Python eval structure)",
    level="model_checking",
    text="TLC enumerates every expression AST of the annotation grammar to the depth bound and checks that the transcribed transformer preserves Sem, leaves no PEP 604 union, is a fixpoint, is the identity when nothing is to do and uses the documented typing forms. Each emitted AST is unparsed, transformed by the real code, parsed back, and TLC evaluates the same five properties on (input AST, output AST, second output AST); both strings are also evaluated in Python and their origin/args structure compared.",
    ref="DESIGN.md section 4 C20",
-   note="Trusted: TLC; Python's ast.parse/unparse (round trip audited on the emitted universe); Sem as the definition of 'same structure'. Depth 2 over 5 leaves / depth 1 over 14 leaves exhaustively (thorough: depth 2 full in the model), random |-chains beyond."),
+   note="Trusted: TLC; Python's ast.parse/unparse (round trip audited on the emitted universe); Sem as the definition of 'same structure'. Depth 2 over 6 leaves / depth 1 over 15 leaves (incl. a constant with a run of blanks) exhaustively (thorough: depth 2 full in the model), random |-chains beyond."),
  "C19": dict(
    engine="Slotted",
-   technique="TLA+ spec Slotted.tla (decoration histories: _stack guard, slot computation, CPython layout rule vs NeverRaises/StackEmpty/SlotFormula), exhaustive TLC; TLC-emitted histories materialised with real decorator syntax, slotted class vs plain twin under an operation battery, validated by TLC trace spec Slotted_Trace.tla",
+   technique="TLA+ spec Slotted.tla (decoration histories: _stack guard, slot computation, CPython layout rule vs NeverRaises/StackEmpty/SlotFormula), exhaustive TLC; SlottedState.tla (which __setstate__ a slotted class ends up with per frozen-ness and declared state hooks) + SlottedState_Trace.tla; TLC-emitted histories materialised with real decorator syntax, slotted class vs plain twin under an operation battery, validated by TLC trace spec Slotted_Trace.tla",
    level="model_checking",
-   text="TLC explores every decoration history up to the bound (names repeated, bases in slotted or plain form, all flag pairs) and checks that decoration never raises, the module-global guard is empty between decorations and the slot formula holds (and that the pinned behaviour violates this). Emitted histories are executed against the real decorator at module and function-local scope under 7 dataclass flag sets; each event (outcome, __slots__, dict/weakref support, len(_stack), battery differences against the plain twin) is validated by TLC with the guard as a hidden variable.",
+   text="TLC explores every decoration history up to the bound (names repeated, bases in slotted or plain form, all flag pairs) and checks that decoration never raises, the module-global guard is empty between decorations and the slot formula holds (and that the pinned behaviour violates this). Emitted histories are executed against the real decorator at module and function-local scope under 11 dataclass flag sets (incl. a lone __setstate__ / __getstate__); each event (outcome, __slots__, dict/weakref support, len(_stack), battery differences against the plain twin) is validated by TLC with the guard as a hidden variable; the state hook in use after decoration is judged by SlottedState (a declared hook is kept, a frozen class without hooks gets the fix).",
    ref="DESIGN.md section 4 C19",
    note="Trusted: TLC; the Python battery (construct/eq/order/hash/repr/copy/deepcopy/pickle 2-5/setattr/asdict/replace) whose equality TLC only asserts; bounded to histories of 3 (thorough 4) with <=2 own fields."),
  "C03": dict(
@@ -67,7 +67,7 @@ CLAIMED = {
    level="model_checking",
    text="For every type of the TLC-enumerated universe and boundary-biased valid values, the real marshal -> unmarshal -> marshal chain is recorded; TLC confirms Exact(T, v), then requires the projected result term to equal the projected input (runtime class at every position, UTC offset, microseconds) unless a union inside T is ambiguous, and requires the second wire form to equal the first (modulo element order under set types) always. Scalars are visited twice in opposite orders with warm value memos. The marshalled form is also compared with the reference relation IsWireOf (reported as drift: no listed property fixes the wire format).",
    ref="DESIGN.md section 4 C01",
-   note="Trusted: TLC; term projection; union ambiguity is decided with the real member routines over the member pools (it only selects which law applies, and is broader than the statement: marshal-side take-over counts too). Values come from finite pools."),
+   note="Trusted: TLC; term projection; union ambiguity is decided with the real member routines over the member pools (it only selects which law applies, and is broader than the statement: marshal-side take-over counts too); every take-over is logged as a witness and bounded by the trace spec (a collection/mapping/fixed-tuple member never takes a scalar), so a member that starts accepting more cannot excuse itself. Values come from finite pools."),
  "C06": dict(
    engine="Wire",
    technique="TLA+ specs Terms.tla + Wire.tla (IsWire with exact builtin classes); TLC-enumerated universe x pool values and their subclass-instance variants through the real marshallers, TLC trace spec Wire_Trace.tla checks IsWire plus logged json/determinism/aliasing/intactness facts",
@@ -93,7 +93,7 @@ CLAIMED = {
    engine="Graph",
    technique="TLA+ spec Graph.tla (termination and cut rule over all cycle topologies, liveness under fairness) + Member_Trace.tla (per-level events); TLC-emitted cycle topologies materialised, routines built under a watchdog, values unrolled to depth d, each recursion level validated by TLC",
    level="model_checking",
-   text="TLC proves on the graph model that construction terminates and every cycle is cut for every topology of up to 2 classes x 2 fields (and 3 classes x 1 field) with every class or container as root. Each emitted cyclic (topology, root) is materialised (four class flavours, one or two modules); marshaller, unmarshaller and codec are built under a watchdog, and for each depth the raw wire value is unmarshalled, walked level by level (one event per value with a flag per level: right class, every scalar converted; at depths 1-3 also given as a tree of instances whose members still hold wire values), marshalled back and sent through the codec; TLC validates every event.",
+   text="TLC proves on the graph model that construction terminates and every cycle is cut for every topology of up to 2 classes x 2 fields (and 3 classes x 1 field) with every class or container as root. Each emitted cyclic (topology, root) is materialised (four class flavours, one or two modules); marshaller, unmarshaller and codec are built under a watchdog, and for each depth the raw wire value is unmarshalled, walked level by level (one event per value with a flag per level: right class, every scalar converted; at depths 1-3 also given as a tree of instances whose members still hold wire values), marshalled back and sent through the codec; every fourth case first asks for the routines of each class right after its class statement (before the classes it refers to exist) and is asserted when those early builds failed; TLC validates every event.",
    ref="DESIGN.md section 4 C07",
    note="Trusted: TLC; the harness's level walker and value unroller; depth counts class levels (0-12 quick; thorough adds 50, 100, 150 on a sample); below the second level values are paths rather than full trees. Known finding KF-C07-01 at depth 150 only."),
  "C11": dict(
@@ -105,23 +105,23 @@ CLAIMED = {
    note="Trusted: TLC; term projection; twin classes compared up to their name. typelib's memos are cleared before each string-referenced call (the cross-module poisoning of the reference memo is C12's subject). Strip idempotence is checked at model level on the Terms universe."),
  "C15": dict(
    engine="Member",
-   technique="TLA+ spec Terms.tla (extended annotation grammar enumerated by TLC) + Member_Trace.tla ('build' events); every emitted annotation built (unmarshaller, marshaller, codec) under a watchdog, sentinel pass-through probes, rebuild memoised and after cache clearing",
+   technique="TLA+ spec Terms.tla (extended annotation grammar enumerated by TLC) + Member_Trace.tla ('build' events) + Factory.tla / Factory_Trace.tla (routine factory model and real routine tables); every emitted annotation built (unmarshaller, marshaller, codec) under a watchdog, sentinel pass-through probes, rebuild memoised and after cache clearing",
    level="model_checking",
-   text="TLC enumerates the extended annotation grammar (29 extension leaves -- Any, object, bare builtin/typing generics, free/bound/constrained TypeVars, Callable forms, type[X], bare and parameterised user generics, classes without hints -- under 11 constructors incl. two variadic tuples and class fields; depth 2 over all leaves in thorough) and the ordinary universe; for each annotation the three factories must return without error or non-termination, a sentinel object placed at every reachable pass-through position must come back identical through unmarshal and marshal, and rebuilding (memoised, and after clearing every cache) must give the same behaviour; TLC validates each build event.",
+   text="TLC enumerates the extended annotation grammar (31 extension leaves -- Any, object, bare builtin/typing generics, free/bound/constrained TypeVars, Callable forms, type[X], bare and parameterised user generics, classes without hints incl. *args/**kwargs and keyword-only constructors -- under 11 constructors incl. two variadic tuples and class fields; depth 2 over all leaves in thorough) and the ordinary universe; for each annotation the three factories must return without error or non-termination, a sentinel object placed at every reachable pass-through position must come back identical through unmarshal and marshal, and rebuilding (memoised, and after clearing every cache) must give the same behaviour; TLC validates each build event. The routine factory model is checked and the real unmarshaller / marshaller tables of its emitted (topology, root) cases are judged by it (a resolvable member never gets a no-op routine).",
    ref="DESIGN.md section 4 C15",
    note="Trusted: TLC; the probe construction in the harness. Termination of graph construction itself is proved on the Graph model (C09/C07)."),
  "C14": dict(
    engine="Carriers",
-   technique="TLA+ spec Carriers.tla (load() with its memo as state over texts x carriers, caller-side mutation of returned containers, LoadRef) checked exhaustively by TLC; real unmarshal/load/strload/decode over texts x 5 carriers x the type universe validated by TLC trace spec Carriers_Trace.tla with stdlib json/ast facts",
+   technique="TLA+ spec Carriers.tla (load() with its memo as state over texts x carriers, caller-side mutation of returned containers, LoadRef) checked exhaustively by TLC; real unmarshal/load/strload/decode over texts x 8 carriers x the type universe validated by TLC trace spec Carriers_Trace.tla with stdlib json/ast facts",
    level="model_checking",
-   text="TLC explores every load() history over a text pool in the eight carriers (str, bytes, bytearray, views of bytes / a bytearray / a window of a larger buffer / a strided view) with the LRU memo as a state variable and checks carrier-freedom and agreement with LoadRef (and shows that memoising on the carrier object, or handing out the memo's own containers, violates it). On the real code, every type of the TLC universe is fed the same text in str/bytes/bytearray/memoryview(bytes)/memoryview(bytearray) and TLC requires equal outcomes or rejection by all; load/strload/decode are run over 63 adversarial texts with facts from the standard json and ast modules, each load/strload again after the returned container was deep-mutated; JSON text, literal text and the decoded wire value must unmarshal alike for collection, mapping and structured types.",
+   text="TLC explores every load() history over a text pool in the eight carriers (str, bytes, bytearray, views of bytes / a bytearray / a window of a larger buffer / a strided view) with the LRU memo as a state variable and checks carrier-freedom and agreement with LoadRef the survival of the caller's object and same-object reuse (and shows that memoising on the carrier object, handing out the memo's own containers, reading the exporting object instead of the view, or releasing the view violates them). On the real code, every type of the TLC universe is fed the same text in all eight carriers and TLC requires equal outcomes or rejection by all, every carrier object intact afterwards and the same outcome when it is handed over again; load/strload/decode are run over 72 adversarial texts (incl. documents after a line break) with facts from the standard json and ast modules, each load/strload again after the returned container was deep-mutated; JSON text, literal text and the decoded wire value must unmarshal alike for collection, mapping and structured types.",
    ref="DESIGN.md section 4 C14",
    note="Trusted: TLC; stdlib json (strict) and ast.literal_eval as fact sources; texts where strict and lenient JSON decoders disagree are excluded."),
  "C02": dict(
    engine="Codec",
    technique="TLA+ spec Codec.tla (codec() memo as state, three entry points, identity coder) checked exhaustively by TLC over histories; real codec/encode/decode under three encoder configurations in sequence, validated by TLC trace spec Codec_Trace.tla with the stdlib json parser as independent reader",
    level="model_checking",
-   text="TLC explores every history of up to 4 uses over JSON-carried and bytes-like types and three encoder configurations with the codec() cache as state and checks agreement of the entry points, absence of cross-talk between configurations and verbatim carriage of bytes-like types (and shows a key without the coders, or top-level functions that always run the encoder, violating it). On the real code every str-keyed non-ambiguous type of the TLC universe (plus bytes/bytearray) is encoded and decoded through Codec methods, the top-level functions and the explicit composition under default -> stdlib json -> tagging codec -> default without clearing caches; TLC requires identical results, bytes equal to encoder(marshal(v)), the standard json module parsing them to exactly marshal(v), and decode(encode(v)) = v.",
+   text="TLC explores every history of up to 4 uses over JSON-carried and bytes-like types and three encoder configurations with the codec() cache as state and checks agreement of the entry points, absence of cross-talk between configurations and verbatim carriage of bytes-like types (and shows a key without the coders, or top-level functions that always run the encoder, violating it). On the real code every str-keyed non-ambiguous type of the TLC universe (plus bytes/bytearray; values also with str-subclass keys in their declared mappings, which are == the plain value) is encoded and decoded through Codec methods, the top-level functions and the explicit composition under default -> stdlib json -> tagging codec -> default without clearing caches; TLC requires identical results, bytes equal to encoder(marshal(v)), the standard json module parsing them to exactly marshal(v), and decode(encode(v)) = v.",
    ref="DESIGN.md section 4 C02",
    note="Trusted: TLC; stdlib json as independent parser; term projection. Ambiguous-union types are outside (C01 weak law)."),
  "C12": dict(
@@ -133,16 +133,16 @@ CLAIMED = {
    note="Trusted: TLC; os.fork of a zygote as 'cold process'; term projection. Histories of length 4 (quick, 170 sampled per family) / 5 (thorough, all); 4 / 12 zygotes in parallel."),
  "C04": dict(
    engine="Scalars",
-   technique="TLA+ spec Scalars.tla (routing law table, ISO-8601 duration token algebra model-checked by TLC over a boundary grid); real scalar parse/emit events over boundary + seeded Hypothesis values in 5 carriers under two time zones with warmed memos, validated by TLC trace spec Scalars_Trace.tla against standard-library facts",
+   technique="TLA+ spec Scalars.tla (routing law table, ISO-8601 duration token algebra model-checked by TLC over a boundary grid); real scalar parse/emit events over boundary + seeded Hypothesis values in 8 carriers under two time zones with warmed memos, validated by TLC trace spec Scalars_Trace.tla against standard-library facts",
    level="exploration",
-   text="TLC checks the duration algebra (the writer's token form means exactly the timedelta triple, negation is involutive, well-formedness condition) on a boundary grid and the trace spec applies Law(K, input kind) to every observed call. For each scalar kind, boundary values and seeded random values are printed with Python's own printer and parsed back through the real unmarshal in five carriers; marshalling must emit that very text and the standard library's own parser must read it back; durations are tokenised by an independent regex and judged by Meaning/WellFormed in TLA+; numbers are read as UTC epoch seconds against datetime.fromtimestamp and temporals converted to int/float/str/bytes; half the values run after the memos were warmed with an equal-but-different twin; everything runs under TZ=UTC and TZ=XXX-5:30. Infinite scalar domains are sampled, hence exploration.",
+   text="TLC checks the duration algebra (the writer's token form means exactly the timedelta triple, negation is involutive, well-formedness condition) on a boundary grid and the trace spec applies Law(K, input kind) to every observed call. For each scalar kind, boundary values and seeded random values are printed with Python's own printer and parsed back through the real unmarshal in eight carriers (incl. views onto a window of a larger buffer); marshalling must emit that very text and the standard library's own parser must read it back; durations are tokenised by an independent regex and judged by Meaning/WellFormed in TLA+; numbers are read as UTC epoch seconds against datetime.fromtimestamp and temporals converted to int/float/str/bytes; half the values run after the memos were warmed with an equal-but-different twin; everything runs under TZ=UTC and TZ=XXX-5:30. Infinite scalar domains are sampled, hence exploration.",
    ref="DESIGN.md section 4 C04",
    note="Trusted: TLC; Python's str()/isoformat()/fromisoformat()/Decimal/Fraction/UUID parsers as oracle; the regex duration tokenizer. time -> number (depends on today's date) is not asserted."),
  "C17": dict(
    engine="Dispatch",
    technique="TLA+ spec Dispatch.tla (each predicate as a definition over primitive runtime facts; the two ordered dispatch tables as first-match rows) evaluated by TLC on recorded predicate calls and factory choices (Dispatch_Trace.tla); facts extracted with typing/issubclass/dataclasses only",
    level="other",
-   text="A catalogue differential whose oracle is composed in TLA+: 35 predicates are definitions over primitive facts (issubclass of the resolved class against named bases, typing.get_origin/get_args, special-form flags) extracted at check time without typelib for 172 objects (incl. generic TypedDict / dataclass / NamedTuple); TLC evaluates Def(p, facts) for every recorded call and checks agreement of the cold answer (every memo cleared before each question), no raise inside the domain, stability across calls (warm passes in both object orders), equal answers across spellings of one type inside the domain, origin()/args() against typing, and instantiable origins of collection annotations; the routine classes the real factories choose are compared with the first matching rows of the transcribed tables (drift).",
+   text="A catalogue differential whose oracle is composed in TLA+: 37 predicates (incl. the builtin / stdlib table predicates with their union rule) are definitions over primitive facts (issubclass of the resolved class against named bases, typing.get_origin/get_args, special-form flags) extracted at check time without typelib for 195 objects (incl. generic TypedDict / dataclass / NamedTuple, classes whose instances can be called, string aliases behind wrappers of other modules); TLC evaluates Def(p, facts) for every recorded call and checks agreement of the cold answer (every memo cleared before each question), no raise inside the domain, stability across calls (warm passes in both object orders), equal answers across spellings of one type inside the domain, origin()/args()/unwrap() against typing, and instantiable origins of collection annotations; the routine classes the real factories choose are compared with the first matching rows of the transcribed tables (drift).",
    ref="DESIGN.md section 4 C17",
    note="TLC contributes definitions and evaluation, not state exploration. Trusted: the fact extractor (stdlib), the resolution rule (NewType/alias/ClassVar, typing origin, documented abstract->builtin map)."),
 }
